@@ -67,6 +67,16 @@ def run(ctx):
             if callee_is(t, 'AbortHandle::abort', 'DelayQueue::remove', 'DelayQueue::clear', 'HashMap::insert', 'HashMap::clear', 'util::Compact::compact'):
                 R.ob('C04.abort', ('server table aborting removal', 'miss has no effect', t['callee'].split('::')[-1]), bool(guarded_by_variant(F, P, g, bb, rm, ['Some'])),
                      'every effect of the aborting removal is on the hit edge; cancelling an unknown or finished id does nothing', [g.loc(t)])
+    # any other mutation of the table's own state (a call taking &mut of a field of self) is on the hit edge as well
+    for g in T.bodies(m):
+        for bb, t in g.calls():
+            at = (t.get('arg_tys') or [''])[0]
+            if not at.startswith('&mut') or callee_is(t, 'HashMap::remove', 'HashMap::remove_entry') or t.get('expn'):
+                continue
+            rs = P.root(P.operand(g, t['args'][0], at=bb))
+            if rs and all(r[0] == 'param' and r[1] == m.id and r[2] == 1 and P.fpath(p) for r, p in rs):
+                R.ob('C04.abort', ('server table aborting removal', 'state change only on hit', (t.get('callee') or '?').split('::')[-1] + ' on self.' + '.'.join(P.fpath(rs[0][1]))),
+                     bool(guarded_by_variant(F, P, g, bb, rm, ['Some'])), 'cancelling an unknown or finished id leaves the table\'s state untouched', [g.loc(t)])
     R.ob('C04.abort', ('server table aborting removal', 'abort and timer removal present'), n_ab == 1 and n_tm == 1,
          'a cancelled request is aborted and stops counting (entry and timer gone)', [m.loc(m.d)], 'abort=%d timer=%d' % (n_ab, n_tm))
 
